@@ -34,6 +34,10 @@ import (
 type c18wPhase struct {
 	Mode  string `json:"mode"`  // double | huge | overflow (threshold above free) ; half | tiny (below)
 	Ticks int    `json:"ticks"` // ticks the setting stays in force
+	// ForeignResume: after the first tick of the phase another controller (operator, WARC-queue watcher) resumes the
+	// pipeline. The watcher does not pause again during the same low period (it believes its pause is in force), but the
+	// next low period must pause like any other.
+	ForeignResume bool `json:"foreign_resume,omitempty"`
 }
 
 type c18wCase struct {
@@ -48,8 +52,9 @@ func genC18W(t *rapid.T) c18wCase {
 	n := rapid.IntRange(1, 7).Draw(t, "nphases")
 	for i := 0; i < n; i++ {
 		c.Phases = append(c.Phases, c18wPhase{
-			Mode:  []string{"half", "double", "tiny", "huge", "double", "half", "overflow"}[rapid.IntRange(0, 6).Draw(t, fmt.Sprintf("mode%d", i))],
-			Ticks: rapid.IntRange(1, 3).Draw(t, fmt.Sprintf("ticks%d", i)),
+			Mode:          []string{"half", "double", "tiny", "huge", "double", "half", "overflow"}[rapid.IntRange(0, 6).Draw(t, fmt.Sprintf("mode%d", i))],
+			Ticks:         rapid.IntRange(1, 3).Draw(t, fmt.Sprintf("ticks%d", i)),
+			ForeignResume: rapid.IntRange(0, 4).Draw(t, fmt.Sprintf("foreign%d", i)) == 0,
 		})
 	}
 	return c
@@ -69,7 +74,7 @@ func propC18Watcher(t veriflib.TB, outer *testing.T, c c18wCase) {
 
 	var hist []string
 	viol := ""
-	transitions := 0
+	transitions, foreign := 0, 0
 	synctest.Test(outer, func(st *testing.T) {
 		pause.VerifReset()
 		diskWatcherCtx, diskWatcherCancel = context.WithCancel(context.Background())
@@ -115,7 +120,7 @@ func propC18Watcher(t veriflib.TB, outer *testing.T, c c18wCase) {
 		if pause.IsPaused() {
 			viol = "the pipeline is paused before the first tick of the disk watcher although the setting leaves ample room"
 		}
-		wantPaused := false
+		wantPaused, overridden := false, false
 	phases:
 		for pi, ph := range c.Phases {
 			config.Get().MinSpaceRequired = setting(ph.Mode)
@@ -130,6 +135,16 @@ func propC18Watcher(t veriflib.TB, outer *testing.T, c c18wCase) {
 				time.Sleep(interval)
 				synctest.Wait()
 				low := c18wLow[ph.Mode]
+				if overridden {
+					if low {
+						// still the low period another controller overrode: nothing is demanded until space has been seen
+						// sufficient again
+						wantPaused = pause.IsPaused()
+						say("tick (overridden low period): paused=%v", pause.IsPaused())
+						continue
+					}
+					overridden = false
+				}
 				if low != wantPaused {
 					transitions++
 				}
@@ -143,6 +158,20 @@ func propC18Watcher(t veriflib.TB, outer *testing.T, c c18wCase) {
 				if parked.Load() != wantPaused {
 					viol = fmt.Sprintf("phase %d tick %d: pipeline paused=%v but its worker is parked=%v", pi, k+1, wantPaused, parked.Load())
 					break phases
+				}
+				if k == 0 && ph.ForeignResume && pause.IsPaused() {
+					say("another controller resumes the pipeline")
+					foreign++
+					rdone := make(chan struct{})
+					go func() { pause.Resume(); close(rdone) }()
+					synctest.Wait()
+					select {
+					case <-rdone:
+					default:
+						viol = fmt.Sprintf("phase %d: Resume() by another controller blocks", pi)
+						break phases
+					}
+					overridden, wantPaused = true, false
 				}
 			}
 		}
@@ -171,7 +200,7 @@ func propC18Watcher(t veriflib.TB, outer *testing.T, c c18wCase) {
 	if viol != "" {
 		veriflib.Fail(t, "C18", facet, c, hist, "%s", viol)
 	}
-	cl := []string{fmt.Sprintf("interval:%dms", c.IntervalMs), fmt.Sprintf("transitions:%d", min(transitions, 4))}
+	cl := []string{fmt.Sprintf("interval:%dms", c.IntervalMs), fmt.Sprintf("transitions:%d", min(transitions, 4)), fmt.Sprintf("foreign-resumes:%d", min(foreign, 3))}
 	for _, ph := range c.Phases {
 		cl = append(cl, "mode:"+ph.Mode)
 	}
